@@ -6,6 +6,7 @@ Spec readers). The inverse for integers and BIT is the Impl model of `Type.Conve
 Gms/Model/NumConv.lean (C26/C27). Regenerated facts: Gms/Generated/C28.lean.
 -/
 import Gms.Model.Wire
+import Gms.Lemmas.WireCs
 import Gms.Generated.C28
 
 namespace Gms.Wire
@@ -794,6 +795,166 @@ theorem text_roundtrip_partial (t : Wire.Ty) (v : Wire.Val) (hv : Valid t v)
   case time.time => exact absurd hkind (by simp)
 
 
+
+/-! ## Character sets: the length announced at type construction bounds the text transcoded at
+encode time (ENUM, SET, CHAR/VARCHAR, TEXT under every `character_set_results`)
+
+Full statement (FALSE on the unchanged tree — `finding_result_charset_wider_than_announced`):
+`WireCs.Valid t v → sentText res t v = some bs → bs.length ≤ announced res t`. -/
+
+section CharacterSets
+open Gms.WireCs
+
+theorem effective_ne_binary (res : WireCs.Res) (col : Cs) (h : col ≠ .binary) : res.effective col ≠ .binary := by
+  cases res with
+  | null => exact h
+  | cs c => cases c <;> simp [Res.effective] <;> exact h
+
+/-- the transcoded form of a string of `k` characters fits `k × w` when the effective result
+character set is not wider than `w` -/
+theorem encoded_le (res : WireCs.Res) (col : Cs) (hcol : col ≠ .binary) (w : Nat) (hw : (res.effective col).maxLen ≤ w)
+    (s : Str) (k : Nat) (hk : s.length ≤ k) (bs : Utf8.Bytes) (h : encode (res.effective col) s = some bs) :
+    bs.length ≤ k * w := by
+  have h1 := encode_length_le _ (effective_ne_binary res col hcol) s bs h
+  have h2 : s.length * (res.effective col).maxLen ≤ k * w := Nat.mul_le_mul hk hw
+  omega
+
+/-- **ENUM**: every member, transcoded, fits the maximum over the members. -/
+theorem enum_text_len_le_announced (res : WireCs.Res) (col : Cs) (ms : List Str) (i : Nat)
+    (hv : WireCs.Valid (.enum col ms) (.idx i)) (hr : ¬ ResultCharsetWider res (.enum col ms))
+    (bs : Utf8.Bytes) (h : sentText res (.enum col ms) (.idx i) = some bs) :
+    bs.length ≤ announced res (.enum col ms) := by
+  obtain ⟨hcol, hi1, _⟩ := hv
+  simp only [ResultCharsetWider, lenWidth, WireCs.Ty.col, Nat.not_lt] at hr
+  simp only [sentText, plainText, WireCs.Ty.col] at h
+  rw [if_neg (by omega)] at h
+  cases hm : ms[i - 1]? with
+  | none => simp [hm] at h
+  | some m =>
+    simp only [hm] at h
+    have h1 := encoded_le res col hcol col.maxLen hr m m.length (Nat.le_refl _) bs h
+    have h2 := enumLen_ge col.maxLen ms (i - 1) m hm
+    simp only [announced]
+    omega
+
+/-- **SET**: every comma-joined selection of members, transcoded, fits the sum over the members plus
+one separator *of a full character width* per member after the first. -/
+theorem set_text_len_le_announced (res : WireCs.Res) (col : Cs) (ms : List Str) (b : Nat)
+    (hv : WireCs.Valid (.set col ms) (.bits b)) (hr : ¬ ResultCharsetWider res (.set col ms))
+    (bs : Utf8.Bytes) (h : sentText res (.set col ms) (.bits b) = some bs) :
+    bs.length ≤ announced res (.set col ms) := by
+  obtain ⟨hcol, _, _, _⟩ := hv
+  simp only [ResultCharsetWider, lenWidth, WireCs.Ty.col, Nat.not_lt] at hr
+  simp only [sentText, plainText, WireCs.Ty.col] at h
+  have h1 := encoded_le res col hcol col.maxLen hr (setText ms b) _ (setText_length_le ms b) bs h
+  simp only [announced, setLen_eq]
+  rw [Nat.add_mul] at h1
+  exact h1
+
+/-- **CHAR(n) / VARCHAR(n)**: a storable string has at most `n` characters. -/
+theorem char_text_len_le_announced (res : WireCs.Res) (col : Cs) (n : Nat) (s : Str)
+    (hv : WireCs.Valid (.char col n) (.str s)) (hr : ¬ ResultCharsetWider res (.char col n))
+    (bs : Utf8.Bytes) (h : sentText res (.char col n) (.str s) = some bs) :
+    bs.length ≤ announced res (.char col n) := by
+  obtain ⟨hcol, _, hlen⟩ := hv
+  simp only [ResultCharsetWider, lenWidth, WireCs.Ty.col, Nat.not_lt] at hr
+  simp only [sentText, plainText, WireCs.Ty.col] at h
+  have hu := length_le_utf8Len s
+  have hk : s.length ≤ n := by
+    split at hlen
+    · omega
+    · rcases hlen with hlen | hlen <;> omega
+  exact encoded_le res col hcol col.maxLen hr s n hk bs h
+
+/-- **TEXT**: a storable string has at most `maxByteLength` characters; the announced length is
+computed per session with the width of `character_set_results`. -/
+theorem text_text_len_le_announced (res : WireCs.Res) (col : Cs) (mb : Nat) (s : Str)
+    (hv : WireCs.Valid (.text col mb) (.str s)) (hr : ¬ ResultCharsetWider res (.text col mb))
+    (bs : Utf8.Bytes) (h : sentText res (.text col mb) (.str s) = some bs) :
+    bs.length ≤ announced res (.text col mb) := by
+  obtain ⟨hcol, _, hlen⟩ := hv
+  simp only [ResultCharsetWider, lenWidth, WireCs.Ty.col, Nat.not_lt] at hr
+  simp only [sentText, plainText, WireCs.Ty.col] at h
+  have hu := length_le_utf8Len s
+  exact encoded_le res col hcol res.rawMaxLen hr s mb (by omega) bs h
+
+/-- **`cs_text_len_le_announced` (partial)**: for ENUM, SET, CHAR/VARCHAR and TEXT columns of every
+column character set, every `character_set_results` (NULL and binary included) and every storable
+value: outside `ResultCharsetWider` the transcoded text is no longer than the announced length.
+The two sides are computed at different sites of the code (type construction vs. `Type.SQL`). -/
+theorem cs_text_len_le_announced_partial (res : WireCs.Res) (t : WireCs.Ty) (v : WireCs.Val) (hv : WireCs.Valid t v)
+    (hr : ¬ ResultCharsetWider res t) (bs : Utf8.Bytes) (h : sentText res t v = some bs) :
+    bs.length ≤ announced res t := by
+  cases t <;> cases v <;> (first | exact False.elim hv | skip)
+  case enum.idx col ms i => exact enum_text_len_le_announced res col ms i hv hr bs h
+  case set.bits col ms b => exact set_text_len_le_announced res col ms b hv hr bs h
+  case char.str col n s => exact char_text_len_le_announced res col n s hv hr bs h
+  case text.str col mb s => exact text_text_len_le_announced res col mb s hv hr bs h
+
+/-- non-vacuity: the hypotheses hold on a value that fills the announced length exactly —
+`SET('r','w','x')` (utf8mb4) read with `character_set_results = utf32`: 20 bytes, 20 announced. -/
+example : WireCs.Valid (.set .utf8mb4 [[114], [119], [120]]) (.bits 7) ∧
+    ¬ ResultCharsetWider (.cs .utf32) (.set .utf8mb4 [[114], [119], [120]]) ∧
+    (sentText (.cs .utf32) (.set .utf8mb4 [[114], [119], [120]]) (.bits 7)).map List.length = some 20 ∧
+    announced (.cs .utf32) (.set .utf8mb4 [[114], [119], [120]]) = 20 := by decide
+
+/-- Witnesses: a latin1 `ENUM('é')` read with `character_set_results = utf8mb4` is sent as 2 bytes,
+1 announced; a latin1 `SET('r','w','x')` holding `r,w,x` read with utf32 is sent as 20 bytes, 5
+announced; a utf16 TINYTEXT holding `ab` … read with `character_set_results = binary` announces 255
+for up to 510 bytes. Replayed on the real code (corpus cases of the `cs` stream). -/
+theorem finding_result_charset_wider_than_announced :
+    (∃ res t v bs, WireCs.Valid t v ∧ ResultCharsetWider res t ∧ sentText res t v = some bs ∧
+      bs.length > announced res t) ∧
+    (∃ bs, sentText (.cs .utf32) (.set .latin1 [[114], [119], [120]]) (.bits 7) = some bs ∧
+      bs.length = 20 ∧ announced (.cs .utf32) (.set .latin1 [[114], [119], [120]]) = 5) :=
+  ⟨⟨.cs .utf8mb4, .enum .latin1 [[0xE9]], .idx 1, [0xC3, 0xA9], by decide⟩, ⟨_, rfl, by decide⟩⟩
+
+/-! ### The separator term of the SET length is needed at full character width -/
+
+theorem encode_utf32_length : ∀ (s : Str), (∀ r ∈ s, Utf8.isScalar r = true) →
+    ∃ bs, encode .utf32 s = some bs ∧ bs.length = s.length * 4
+  | [], _ => ⟨[], rfl, rfl⟩
+  | r :: rs, h => by
+    obtain ⟨b, hb, hl⟩ := encode_utf32_length rs (fun x hx => h x (List.mem_cons_of_mem _ hx))
+    have hr : Utf8.isScalar r = true := h r (by simp)
+    refine ⟨[0, r / 65536, r / 256 % 256, r % 256] ++ b, ?_, ?_⟩
+    · simp [encode, encodeCp, hr, hb]
+    · simp only [List.length_append, List.length_cons, List.length_nil, hl]
+      omega
+
+theorem joinComma_scalar : ∀ (l : List Str), (∀ m ∈ l, ∀ r ∈ m, Utf8.isScalar r = true) →
+    ∀ r ∈ joinComma l, Utf8.isScalar r = true
+  | [], _, r, hr => by simp [joinComma] at hr
+  | [m], h, r, hr => by
+    simp only [joinComma] at hr
+    exact h m (by simp) r hr
+  | m :: x :: rest, h, r, hr => by
+    simp only [joinComma, List.mem_append, List.mem_cons] at hr
+    rcases hr with hr | hr | hr
+    · exact h m (by simp) r hr
+    · subst hr; decide
+    · exact joinComma_scalar (x :: rest) (fun m' hm' => h m' (List.mem_cons_of_mem _ hm')) r hr
+
+/-- **The announced SET length is attained**: for a column character set of width 4 read with
+`character_set_results = utf32`, the value holding *all* members is sent in exactly
+`MaxTextResponseByteLength` bytes. Consequently no term of the `CreateSetType` loop — in particular
+the separator's `maxCharLength` — can be made smaller without under-announcing. -/
+theorem set_announced_attained (col : Cs) (hw : col.maxLen = 4) (ms : List Str)
+    (hs : ∀ m ∈ ms, ∀ r ∈ m, Utf8.isScalar r = true) :
+    ∃ bs, sentText (.cs .utf32) (.set col ms) (.bits (2 ^ ms.length - 1)) = some bs ∧
+      bs.length = announced (.cs .utf32) (.set col ms) := by
+  have hsel : setText ms (2 ^ ms.length - 1) = joinComma ms := by rw [setText, selected_all]
+  obtain ⟨bs, hb, hl⟩ := encode_utf32_length (joinComma ms) (joinComma_scalar ms hs)
+  refine ⟨bs, ?_, ?_⟩
+  · simp only [sentText, plainText, hsel, Res.effective]
+    exact hb
+  · rw [hl, joinComma_length]
+    simp only [announced, setLen_eq, hw, Nat.add_mul]
+
+example : ∃ bs, sentText (.cs .utf32) (.set .utf8mb4 [[109, 111, 110], [116, 117, 101]]) (.bits 3) = some bs ∧
+    bs.length = 28 ∧ announced (.cs .utf32) (.set .utf8mb4 [[109, 111, 110], [116, 117, 101]]) = 28 := ⟨_, rfl, by decide⟩
+
+end CharacterSets
 
 /-! ## Regenerated facts -/
 
